@@ -3,6 +3,7 @@ import Ahbicht.Model.CFV
 import Ahbicht.Model.Parse
 import Ahbicht.Model.Ahb
 import Ahbicht.Model.Fc
+import Ahbicht.Model.AhbEval
 /-!
 # line-protocol driver: one JSON request per line on stdin, one JSON answer per line on stdout
 -/
@@ -116,6 +117,23 @@ def handle (j : Json) : Except String Json := do
     let t ← exprOfJson (← j.getObjVal? "tree")
     match evalFc (fcEnvOf j) t with
     | .ok r => pure (Json.mkObj [("ok", r.ok), ("msg", optStr r.msg)])
+    | .error e => pure (Json.mkObj [("err", errName e)])
+  | "evalAhb" =>
+    -- parts: [[kind, type, ind, tree|null], ...] as produced by the resolver
+    let ps ← (← j.getObjVal? "parts").getArr?
+    let parts ← ps.toList.mapM fun pj => do
+      let a ← pj.getArr?
+      let ty ← (a[1]? |>.getD Json.null).getStr?
+      let ind ← (a[2]? |>.getD Json.null).getStr?
+      let kind := if ty == "MODAL_MARK" then IndKind.modal else IndKind.prefix_
+      match a[3]? with
+      | some Json.null | none => pure ((⟨kind, ind.toList, none⟩ : Part), (none : Option Expr))
+      | some t => do
+        let e ← exprOfJson t
+        pure ((⟨kind, ind.toList, some []⟩ : Part), some e)
+    match evalAhb (rcEnvOf j) (hintEnvOf j) (fcEnvOf j) parts with
+    | .ok r => pure (Json.mkObj [("indicator", r.indicator), ("fulfilled", optBool r.rc.fulfilled), ("conditional", optBool r.rc.conditional),
+        ("fce", optStr r.rc.fce), ("hints", optStr r.rc.hints), ("fc_ok", r.fc.ok), ("fc_msg", optStr r.fc.msg)])
     | .error e => pure (Json.mkObj [("err", errName e)])
   | _ => throw s!"unknown op {op}"
 
